@@ -155,7 +155,11 @@ fn parse_path(
                         ident.is_const(),
                     ))
                 }
-                x => unimplemented!("Cannot parse a path from {x:?}"),
+                _ => Err(vec![new_err(
+                    primary.as_span(),
+                    &user_data.get_source_file_name(),
+                    "a parenthesized expression cannot be the target of an assignment; write the path without parentheses (`a.b.c = value`)".to_owned(),
+                )]),
             }
         })
         .map_postfix(|lhs, op| match op.as_rule() {
